@@ -330,6 +330,28 @@ def r8_holdings_paired(chk: Check):
     c09.r1_pairing(chk)
 
 
+
+def r10_holding_identity(chk: Check):
+    """A holding is a file named after the job identifier only, rewritten on acquire and deleted by name by any watcher (findings kept in
+    known_findings.json: two workspaces running the same task share one file; a late watcher deletes the file of the job's next execution)"""
+    tree = chk.tree
+    nm = tree.func("tokens", "CounterTokenDependency.name")
+    rets = [src(x.value) for x in body_walk(nm.node) if isinstance(x, ast.Return) and x.value is not None]
+    only_id = bool(rets) and all("identifier" in r and "path" not in r and "workspace" not in r for r in rets)
+    cr = tree.func("tokens", "TokenFile.create")
+    overwrite = any(isinstance(c, ast.Call) and tail(c) == "open" and c.args and isinstance(c.args[0], ast.Constant) and "w" in str(c.args[0].value) for c in ast.walk(cr.node))
+    chk.require(not (only_id and overwrite), chk.fkey(nm, "holding named after the job identifier only"),
+                f"a holding is the file `{rets[0] if rets else '?'}` of the (shared) token directory, opened for writing: the same task run from two workspaces has one identifier, the second "
+                "acquire rewrites the file of the first, two running jobs count as one and the first to end deletes the holding of the other", chk.loc(nm.module, nm.node))
+    dl = tree.func("tokens", "TokenFile.delete")
+    g = CFG(dl.node)
+    for n, c in g.call_nodes(lambda c: tail(c) == "unlink"):
+        gs = [src(t.ast) for t, pol in g.guards(n) if t.kind == "test"]
+        checked = any(k in t for t in gs for k in ("st_ino", "st_mtime", "read_text", "uri", "nonce"))
+        chk.require(checked, chk.fkey(dl, "holding deleted by name"), f"`{src(c)}` deletes whatever file bears the name (guards: {gs}): a watcher that returns late from the wait for a "
+                    "first execution deletes the holding of the job's next execution, which is running", chk.loc(dl.module, c))
+
+
 RULES = [
     ("R1", "acquire critical section: recount, capacity test (refuse iff available < count), decrement and token-file creation all inside the thread and inter-process locks; refusal raises and creates nothing", r1_acquire_critical_section),
     ("R2", "recount: _update re-reads the total and subtracts every *.token file of the directory, unconditionally (no early return, no skipped file)", r2_recount),
@@ -340,4 +362,5 @@ RULES = [
     ("R8", "a holding is given back only by the lock that took it: locks enter the Locks set once held, one fresh lock object per attempt, level protocol (= C09.R1)", r8_holdings_paired),
     ("R9", "a foreign holding is deleted by its watcher only once its job is gone: pid file absent under the job lock, or the rebuilt process vanished or was waited for", r9_foreign_holding_outlives_job),
     ("R5", "tokens are taken, and the process spawned, under the same job lock; the watcher reads the pid file under that lock", r5_tokens_under_job_lock),
+    ("R10", "identity of a holding (findings kept in known_findings.json): named after the job identifier only and rewritten on acquire; deleted by name by any watcher", r10_holding_identity),
 ]
